@@ -416,6 +416,64 @@ class CoroStart(Awaitable[T_co]):
             return self
 
 
+class _Continuation(Coroutine[Any, Any, T_co]):
+    """
+    The continuation of a started, not `done()`, `CoroStart` as a coroutine-like
+    object for a `Task` to run.  It is like `CoroStart.as_coroutine()` except that
+    an exception thrown into it before it has been resumed for the first time,
+    e.g. when the `Task` is cancelled before it gets to run, is delivered to the
+    started coroutine, whereas a regular coroutine object which has not started
+    just exits without running any code.
+    """
+
+    __slots__ = ["cs", "gen"]
+
+    def __init__(self, cs: CoroStart[T_co]):
+        self.cs = cs
+        self.gen: Optional[Generator[Any, Any, T_co]] = None
+
+    def __await__(self) -> Generator[Any, Any, T_co]:
+        return self  # type: ignore[return-value]
+
+    __iter__ = __await__
+
+    def __next__(self) -> Any:
+        return self.send(None)
+
+    def send(self, value: Any) -> Any:
+        if self.gen is None:
+            self.gen = self.cs.__await__()
+        return self.gen.send(value)
+
+    def throw(self, typ: Any, val: Any = None, tb: Any = None) -> Any:
+        if self.gen is None:
+            # Not resumed yet, so the coroutine is still suspended where `_start()`
+            # left it.  Step to the `yield` of `__await__()` so that the exception
+            # is thrown into the coroutine, not into a generator which has not started.
+            self.gen = self.cs.__await__()
+            out_value = self.gen.send(None)
+            exc = typ if val is None else val
+            if type(exc) is asyncio.CancelledError:
+                # This is a `Task` which was cancelled before its first step.  Do what
+                # `Task.cancel()` does for a Task waiting on a future: cancel
+                # the future, and if that worked, wait for it to finish.
+                cancel = getattr(out_value, "cancel", None)
+                if cancel is not None:
+                    if sys.version_info >= (3, 9):
+                        cancelled = cancel(*exc.args[:1])
+                    else:  # pragma: no cover
+                        cancelled = cancel()
+                    if cancelled:
+                        return out_value
+            # The future is not passed on after all, take back its
+            # `_asyncio_future_blocking` flag which `__await__()` set.
+            if getattr(out_value, "_asyncio_future_blocking", None):
+                out_value._asyncio_future_blocking = False
+        if val is None:
+            return self.gen.throw(typ)
+        return self.gen.throw(typ, val, tb)  # pragma: no cover
+
+
 async def coro_await(
     coro: Coroutine[Any, Any, T], *, context: Optional[Context] = None
 ) -> T:
@@ -449,8 +507,8 @@ def coro_eager(
         return cs.as_future()
 
     if task_factory:
-        return task_factory(cs.as_coroutine())
-    return create_task(cs.as_coroutine(), name="eager_task")
+        return task_factory(_Continuation(cs))
+    return create_task(_Continuation(cs), name="eager_task")
 
 
 def func_eager(
